@@ -44,8 +44,9 @@ type Eff struct {
 	DynAncestor bool
 	// Exact account of the DynamicBlocks extension as block bodies are merged:
 	// SDyn: on for the static body of this block (own flag, or handed down by the
-	// enclosing merged body); MergedDyn: on in the extensions of the merged body
-	// (the dependent body's extensions replace the static ones when it has any);
+	// enclosing merged body); MergedDyn: in force for the merged body (enabled by the
+	// static body as handed down, or by the selected dependent body): a dynamic block then
+	// satisfies a minimum;
 	// DynTypes: block types a dynamic block may generate here (nil: the merged body
 	// declares no dynamic block); Propagated: nested block types whose static body
 	// receives the extension from this body.
@@ -343,8 +344,9 @@ func (e *Eff) dynFacts(static *schema.BodySchema, handedDown bool) {
 	var from map[string]*schema.BlockSchema
 	if e.Dep != nil && (e.Lookup == Resolved || e.Lookup == Partial) {
 		from = e.Dep.Blocks
-		if e.Dep.Extensions != nil {
-			e.MergedDyn = e.Dep.Extensions.DynamicBlocks
+		// the extension is in force for the merged body when either side enables it
+		if e.Dep.Extensions != nil && e.Dep.Extensions.DynamicBlocks {
+			e.MergedDyn = true
 		}
 	} else if static != nil {
 		from = static.Blocks
